@@ -114,6 +114,36 @@ func (m *MonC04) NodeChanged(f *Fleet, n *Node, before, after *NodeState, actor 
 			}
 		}
 	}
+	// (shadow) a key the application had deleted does not come back from the
+	// version that was stored before the deletion: it may only reappear with
+	// a version this transaction newly stored (one that wins against the
+	// deletion).
+	if !n.Native && n.Steady() {
+		appB, appA := before.AppDBIs(), after.AppDBIs()
+		for _, dbi := range sortedKeys(appA) {
+			dB, ok := appB[dbi]
+			if !ok {
+				continue
+			}
+			was := dB.Map()
+			for _, k := range sortedKeys(appA[dbi].Map()) {
+				if _, present := was[k]; present {
+					continue
+				}
+				bv, bok := b[dbi][k]
+				av, aok := a[dbi][k]
+				if !bok || !aok || bv.Deleted || av != bv {
+					continue
+				}
+				if f.ShadowTaint[dbi+"/"+k] || f.RaceKeys[n.Name+"/"+dbi+"/"+k] {
+					continue
+				}
+				f.Violate(Violation{"C04", "no-resurrection", "app-deleted-key-restored",
+					fmt.Sprintf("%s: the application had deleted %s/%q; %s put it back into the application's DBI from the version %s that was stored before the deletion (no newer version arrived)", n.Name, dbi, k, actor.Task.ID, bv)})
+				return
+			}
+		}
+	}
 	// merged deletions remove the key from the application's view (shadow)
 	if !n.Native {
 		app := after.AppDBIs()
